@@ -17,5 +17,5 @@ PY
 timeout 3000 make -j16
 cd ../harness
 cp /repo/Cargo.lock Cargo.lock.repo 2>/dev/null || true
-timeout 3000 cargo build --offline
+timeout 3000 cargo build --offline --bins -k || timeout 3000 cargo build --offline --bins
 echo "setup done"
